@@ -37,7 +37,8 @@ theorem calculateSingleWith_emits_allowed (ds : Dataset) (cs : ConnSet) (p : Par
     {r : Route} (h : calculateSingleWith ds cs p accessFoot egressFoot = .ok r) :
     ∃ depT arrT bd j, r = emit ds p.minWait bd j ∧
       JourneyOK (mkCtx ds p cs accessFoot egressFoot depT arrT) (cs.rev.filter (mkCtx ds p cs accessFoot egressFoot depT arrT).allowed) bd j ∧
-      (p.forward = true → depT = p.time ∧ p.time ≤ bd) ∧ (p.forward = false → depT = -1 ∧ arrT = p.time) := by
+      (p.forward = true → depT = p.time ∧ p.time ≤ bd) ∧ (p.forward = false → depT = -1 ∧ arrT = p.time) ∧
+      0 ≤ bd ∧ arrT - bd ≤ p.maxTotal ∧ (p.forward = true → arrT - p.time ≤ p.maxTotal) := by
   unfold calculateSingleWith at h
   split at h
   · cases h
@@ -55,10 +56,11 @@ theorem calculateSingleWith_emits_allowed (ds : Dataset) (cs : ConnSet) (p : Par
             · split at h
               · cases h
               · rename_i bestArr bestNode hbe
-                obtain ⟨bd, j, h1, h2, h3, _, h5⟩ := singleReverse_emits_allowed
+                obtain ⟨bd, j, h1, h2, h3, h4, h5⟩ := singleReverse_emits_allowed
                   (cx := { mkCtx ds p cs accessFoot egressFoot p.time (-1) with arrT := bestArr })
                   _ hs hm hmw (hclean p.time bestArr) h
-                refine ⟨p.time, bestArr, bd, j, h1, h2, ?_, ?_⟩
+                have hspan := bestEgress_spec hbe
+                refine ⟨p.time, bestArr, bd, j, h1, h2, ?_, ?_, h3, h4, fun _ => hspan⟩
                 · intro _
                   refine ⟨rfl, ?_⟩
                   by_cases hd : p.time = -1
@@ -68,7 +70,7 @@ theorem calculateSingleWith_emits_allowed (ds : Dataset) (cs : ConnSet) (p : Par
         · rw [if_neg hfwd] at h
           obtain ⟨bd, j, h1, h2, h3, h4, _⟩ := singleReverse_emits_allowed (cx := mkCtx ds p cs accessFoot egressFoot (-1) p.time)
             _ hs hm hmw (hclean (-1) p.time) h
-          refine ⟨-1, p.time, bd, j, h1, h2, ?_, ?_⟩
+          refine ⟨-1, p.time, bd, j, h1, h2, ?_, ?_, h3, h4, fun hf => absurd hf hfwd⟩
           · intro hf; exact absurd hf hfwd
           · intro _; exact ⟨rfl, rfl⟩
 
@@ -120,7 +122,7 @@ theorem C04_attained (ds : Dataset) (hwf : WFData ds) (p : Params) (hp : p.forwa
   have hsub := connSetOf_rev_sub ds (ds.scenarioOf p)
   have hm : ArrMono (ds.connSetOf (ds.scenarioOf p)).rev :=
     fun x hx y hy => conns_arrMono hwf.toWFSchedule x (hsub x hx) y (hsub y hy)
-  obtain ⟨depT, arrT, bd, j, rfl, hJ, _, hA⟩ := calculateSingleWith_emits_allowed _ _ p _ _ (connSetOf_sorted ds _) hm hmw
+  obtain ⟨depT, arrT, bd, j, rfl, hJ, _, hA, _⟩ := calculateSingleWith_emits_allowed _ _ p _ _ (connSetOf_sorted ds _) hm hmw
     (fun depT arrT => hclean_allowed hwf p hmw hmt _ _ depT arrT) h
   obtain ⟨rfl, rfl⟩ := hA hp
   obtain ⟨a0, e0, x0, hAdm, hbd⟩ := journeyOK_admRev allowed_not_disabled hJ (routerLookup_nodup _ _ hend)
@@ -139,7 +141,7 @@ theorem C03_attained (ds : Dataset) (hwf : WFData ds) (p : Params) (hp : p.forwa
   have hsub := connSetOf_rev_sub ds (ds.scenarioOf p)
   have hm : ArrMono (ds.connSetOf (ds.scenarioOf p)).rev :=
     fun x hx y hy => conns_arrMono hwf.toWFSchedule x (hsub x hx) y (hsub y hy)
-  obtain ⟨depT, arrT, bd, j, rfl, hJ, hF, _⟩ := calculateSingleWith_emits_allowed _ _ p _ _ (connSetOf_sorted ds _) hm hmw
+  obtain ⟨depT, arrT, bd, j, rfl, hJ, hF, _, _⟩ := calculateSingleWith_emits_allowed _ _ p _ _ (connSetOf_sorted ds _) hm hmw
     (fun depT arrT => hclean_allowed hwf p hmw hmt _ _ depT arrT) h
   obtain ⟨rfl, hbd⟩ := hF hp
   obtain ⟨e, x, g, hAdm, harr⟩ := journeyOK_admFwd allowed_not_disabled hJ hbd
@@ -161,7 +163,7 @@ theorem C05_attained (ds : Dataset) (hwf : WFData ds) (p : Params) (hp : p.forwa
   have hsub := connSetOf_rev_sub ds (ds.scenarioOf p)
   have hm : ArrMono (ds.connSetOf (ds.scenarioOf p)).rev :=
     fun x hx y hy => conns_arrMono hwf.toWFSchedule x (hsub x hx) y (hsub y hy)
-  obtain ⟨depT, arrT, bd, j, rfl, hJ, hF, _⟩ := calculateSingleWith_emits_allowed _ _ p _ _ (connSetOf_sorted ds _) hm hmw
+  obtain ⟨depT, arrT, bd, j, rfl, hJ, hF, _, _⟩ := calculateSingleWith_emits_allowed _ _ p _ _ (connSetOf_sorted ds _) hm hmw
     (fun depT arrT => hclean_allowed hwf p hmw hmt _ _ depT arrT) h
   obtain ⟨rfl, hbd⟩ := hF hp
   have hJ' := journeyOK_exact hJ
